@@ -31,6 +31,7 @@ var funcMap = template.FuncMap{
 	"has_prefix":          strings.HasPrefix,
 	"sum":                 sum,
 	"string_switch":       asStringSwitch,
+	"bytes_switch":        asBytesSwitch,
 	"quote":               strconv.Quote,
 	"join":                strings.Join,
 	"concat":              concat,
@@ -228,6 +229,15 @@ type stringSwitchCase struct {
 }
 
 func asStringSwitch(m map[string]int) stringSwitch {
+	return newStringSwitch(m, stringHash)
+}
+
+// asBytesSwitch is a version of asStringSwitch for lexers that scan (and hash) bytes.
+func asBytesSwitch(m map[string]int) stringSwitch {
+	return newStringSwitch(m, bytesHash)
+}
+
+func newStringSwitch(m map[string]int, stringHash func(s string) uint32) stringSwitch {
 	size := uint32(8)
 	for int(size) < len(m) {
 		size *= 2
@@ -266,6 +276,14 @@ func stringHash(s string) uint32 {
 	var hash uint32
 	for _, r := range s {
 		hash = hash*uint32(31) + uint32(r)
+	}
+	return hash
+}
+
+func bytesHash(s string) uint32 {
+	var hash uint32
+	for i := 0; i < len(s); i++ {
+		hash = hash*uint32(31) + uint32(s[i])
 	}
 	return hash
 }
